@@ -3,6 +3,7 @@
 package main
 
 import (
+	"bytes"
 	"strconv"
 
 	"github.com/stackus/goht"
@@ -135,6 +136,10 @@ func init() {
 			prefix = append(prefix, unhex(p))
 		}
 		return "ok " + tohex(goht.ObjectClass(parseObj(args[0], args[1]), prefix...))
+	}
+	handlers["nuke"] = func(args []string) string {
+		b := goht.Buffer{Buffer: bytes.NewBufferString(unhex(args[0]))}
+		return "ok " + tohex(string(b.Bytes()))
 	}
 	handlers["escape"] = func(args []string) string {
 		return "ok " + tohex(goht.EscapeString(unhex(args[0])))
